@@ -942,7 +942,7 @@ func vReplay(ctx context.Context, h vHist, timeout time.Duration) (out vOut) {
 			}
 			how := "user"
 			for _, ch := range chs {
-				if _, existed := r.prevMeta[ch.Key()]; existed && r.renamedViaPeer[ch.Key()] && s.G == 1 {
+				if _, existed := r.prevMeta[ch.Key()]; existed && r.renamedViaPeer[ch.Key()] {
 					how = "collides-with-free-channel-renamed-via-non-bootstrapper"
 				}
 			}
